@@ -204,6 +204,11 @@ impl Network for Adversary {
                 log("drop", None);
                 continue;
             }
+            if !c2s && len < self.cfg.drop_small_s2c && now_ms > 150 {
+                // selectively starve the client of acknowledgements (ACK-only packets are small)
+                log("drop-small", None);
+                continue;
+            }
             let jitter = |rng: &mut Rng, cfg: &Cfg| {
                 if cfg.jitter_ms == 0 {
                     0
